@@ -9,8 +9,17 @@ package props
 
 import (
 	"context"
+	"crypto/ecdsa"
+	"crypto/elliptic"
+	"crypto/rand"
+	"crypto/x509"
+	"crypto/x509/pkix"
+	"encoding/pem"
 	"errors"
 	"fmt"
+	"math/big"
+	"os"
+	"path/filepath"
 	"sync"
 	"time"
 
@@ -54,21 +63,27 @@ type c19Shape struct {
 	methods []security.AuthMethod
 	enc     security.SecurityLevel
 	resumed bool
+	// the untampered exchange of this shape does not complete on the pinned tree
+	// (cedar's Go SSL client and Go SSL server disagree after the TLS rounds); the
+	// stall/cancel oracle applies to every I/O step it does reach
+	mayFailHonestly bool
 }
 
 var c19Shapes = []c19Shape{
-	{"plain-send-recv", "plain", "", nil, "", false},
-	{"plain-encrypted", "plain-enc", "", nil, "", false},
-	{"typed-exchange", "typed", "", nil, "", false},
-	{"hs-noauth-enc/client", "client", security.SecurityNever, []security.AuthMethod{mCTB}, security.SecurityRequired, false},
-	{"hs-noauth-enc/server", "server", security.SecurityNever, []security.AuthMethod{mCTB}, security.SecurityRequired, false},
-	{"hs-claimtobe/client", "client", security.SecurityRequired, []security.AuthMethod{mCTB}, security.SecurityRequired, false},
-	{"hs-claimtobe/server", "server", security.SecurityRequired, []security.AuthMethod{mCTB}, security.SecurityRequired, false},
-	{"hs-token/client", "client", security.SecurityRequired, []security.AuthMethod{mTOK}, security.SecurityRequired, false},
-	{"hs-token/server", "server", security.SecurityRequired, []security.AuthMethod{mTOK}, security.SecurityRequired, false},
-	{"hs-token-plaintext/client", "client", security.SecurityRequired, []security.AuthMethod{mTOK}, security.SecurityNever, false},
-	{"hs-resumed/client", "client", security.SecurityRequired, []security.AuthMethod{mCTB}, security.SecurityRequired, true},
-	{"hs-resumed/server", "server", security.SecurityRequired, []security.AuthMethod{mCTB}, security.SecurityRequired, true},
+	{"plain-send-recv", "plain", "", nil, "", false, false},
+	{"plain-encrypted", "plain-enc", "", nil, "", false, false},
+	{"typed-exchange", "typed", "", nil, "", false, false},
+	{"hs-noauth-enc/client", "client", security.SecurityNever, []security.AuthMethod{mCTB}, security.SecurityRequired, false, false},
+	{"hs-noauth-enc/server", "server", security.SecurityNever, []security.AuthMethod{mCTB}, security.SecurityRequired, false, false},
+	{"hs-claimtobe/client", "client", security.SecurityRequired, []security.AuthMethod{mCTB}, security.SecurityRequired, false, false},
+	{"hs-claimtobe/server", "server", security.SecurityRequired, []security.AuthMethod{mCTB}, security.SecurityRequired, false, false},
+	{"hs-token/client", "client", security.SecurityRequired, []security.AuthMethod{mTOK}, security.SecurityRequired, false, false},
+	{"hs-token/server", "server", security.SecurityRequired, []security.AuthMethod{mTOK}, security.SecurityRequired, false, false},
+	{"hs-token-plaintext/client", "client", security.SecurityRequired, []security.AuthMethod{mTOK}, security.SecurityNever, false, false},
+	{"hs-resumed/client", "client", security.SecurityRequired, []security.AuthMethod{mCTB}, security.SecurityRequired, true, false},
+	{"hs-resumed/server", "server", security.SecurityRequired, []security.AuthMethod{mCTB}, security.SecurityRequired, true, false},
+	{"hs-ssl/client", "client", security.SecurityRequired, []security.AuthMethod{security.AuthSSL}, security.SecurityNever, false, true},
+	{"hs-ssl/server", "server", security.SecurityRequired, []security.AuthMethod{security.AuthSSL}, security.SecurityNever, false, true},
 }
 
 type c19Out struct {
@@ -177,6 +192,11 @@ func c19Handshake(sh c19Shape, stall int, ctx context.Context, onStall func()) *
 		cc := baseCfg(sh.auth, sh.enc, sh.methods, []security.CryptoMethod{security.CryptoAES}, false)
 		sc := baseCfg(sh.auth, sh.enc, sh.methods, []security.CryptoMethod{security.CryptoAES}, true)
 		cc.Command = 5
+		if len(sh.methods) == 1 && sh.methods[0] == security.AuthSSL {
+			ca, cert, key := c19Certs()
+			cc.CAFile, cc.ServerName = ca, "localhost"
+			sc.CAFile, sc.CertFile, sc.KeyFile = ca, cert, key
+		}
 		return cc, sc
 	}
 	cc, sc := mk()
@@ -225,6 +245,33 @@ func c19Handshake(sh c19Shape, stall int, ctx context.Context, onStall func()) *
 	return out
 }
 
+var c19CertOnce sync.Once
+var c19CertFiles [3]string
+
+// c19Certs writes a throw-away CA and a "localhost" server certificate under
+// /verif/.build (once per process).
+func c19Certs() (ca, cert, key string) {
+	c19CertOnce.Do(func() {
+		dir := filepath.Join(verifDir(), ".build", fmt.Sprintf("c19-certs-%d", os.Getpid()))
+		_ = os.MkdirAll(dir, 0o700)
+		caKey, _ := ecdsa.GenerateKey(elliptic.P256(), rand.Reader)
+		caT := &x509.Certificate{SerialNumber: big.NewInt(1), Subject: pkix.Name{CommonName: "verif CA"}, NotBefore: time.Now().Add(-time.Hour), NotAfter: time.Now().Add(48 * time.Hour), IsCA: true, BasicConstraintsValid: true, KeyUsage: x509.KeyUsageCertSign | x509.KeyUsageDigitalSignature}
+		caDER, _ := x509.CreateCertificate(rand.Reader, caT, caT, &caKey.PublicKey, caKey)
+		caCert, _ := x509.ParseCertificate(caDER)
+		sKey, _ := ecdsa.GenerateKey(elliptic.P256(), rand.Reader)
+		sT := &x509.Certificate{SerialNumber: big.NewInt(2), Subject: pkix.Name{CommonName: "localhost"}, DNSNames: []string{"localhost"}, NotBefore: time.Now().Add(-time.Hour), NotAfter: time.Now().Add(48 * time.Hour), KeyUsage: x509.KeyUsageDigitalSignature, ExtKeyUsage: []x509.ExtKeyUsage{x509.ExtKeyUsageServerAuth}}
+		sDER, _ := x509.CreateCertificate(rand.Reader, sT, caCert, &sKey.PublicKey, caKey)
+		kDER, _ := x509.MarshalECPrivateKey(sKey)
+		w := func(name, typ string, der []byte) string {
+			p := filepath.Join(dir, name)
+			_ = os.WriteFile(p, pem.EncodeToMemory(&pem.Block{Type: typ, Bytes: der}), 0o600)
+			return p
+		}
+		c19CertFiles = [3]string{w("ca.pem", "CERTIFICATE", caDER), w("cert.pem", "CERTIFICATE", sDER), w("key.pem", "EC PRIVATE KEY", kDER)}
+	})
+	return c19CertFiles[0], c19CertFiles[1], c19CertFiles[2]
+}
+
 func c19Exec(sh c19Shape, stall int, ctx context.Context, onStall func()) *c19Out {
 	if sh.role == "client" || sh.role == "server" {
 		return c19Handshake(sh, stall, ctx, onStall)
@@ -235,15 +282,15 @@ func c19Exec(sh c19Shape, stall int, ctx context.Context, onStall func()) *c19Ou
 func C19Plan() *vlib.Plan {
 	p := &vlib.Plan{
 		Property: "C19", Level: "fault_enumeration",
-		Rule:   "E-FAULT over I/O steps: for each shape (plain send/receive, the same on an encrypted stream, typed exchange; client and server side of handshakes {no authentication + encryption, CLAIMTOBE, TOKEN, TOKEN without encryption, resumed session}) a dry run counts the endpoint's connection operations N; for every k < N the k-th read/write blocks forever and, once the stall is entered, (a) the context is cancelled, (b) a harness-controlled deadline context expires (thorough: also a real 50 ms timeout); plus already-cancelled before the call, cancelled after completion, and a never-cancellable context. Oracle: the call returns (10 s watchdog, the only wall-clock judgement), with an error (errors.Is(err, ctx.Err()) for plain stream operations), the connection was closed; never-cancelled runs equal the baseline. Non-trivial = the stall point was reached.",
-		Assume: []string{"free-running (context.AfterFunc callbacks run on standard-library goroutines); SSL/FS/KERBEROS shapes excluded (need certificates / a mount namespace / a KDC)"},
+		Rule:   "E-FAULT over I/O steps: for each shape (plain send/receive, the same on an encrypted stream, typed exchange; client and server side of handshakes {no authentication + encryption, CLAIMTOBE, TOKEN, TOKEN without encryption, resumed session, SSL (TLS tunnelled through CEDAR messages, throw-away CA)}) a dry run counts the endpoint's connection operations N; for every k < N the k-th read/write blocks forever and, once the stall is entered, (a) the context is cancelled, (b) a harness-controlled deadline context expires (thorough: also a real 50 ms timeout); plus already-cancelled before the call, cancelled after completion, and a never-cancellable context. Oracle: the call returns (10 s watchdog, the only wall-clock judgement), with an error (errors.Is(err, ctx.Err()) for plain stream operations), the connection was closed; never-cancelled runs equal the baseline. Non-trivial = the stall point was reached.",
+		Assume: []string{"free-running (context.AfterFunc callbacks run on standard-library goroutines); FS/KERBEROS/SCITOKENS shapes excluded (need a mount namespace / a KDC / an issuer); on the pinned tree cedar's Go SSL client and server do not complete an SSL handshake with each other, so the SSL shapes are judged on the I/O steps they reach"},
 	}
 	p.Gen = func(tier string, yield func(vlib.Case)) {
 		counts := map[string]int{}
 		for _, sh := range c19Shapes {
 			sh := sh
 			base := c19Exec(sh, -1, context.Background(), nil)
-			if base.err != nil || !base.returned {
+			if (base.err != nil && !sh.mayFailHonestly) || !base.returned {
 				yield(vlib.Case{ID: "baseline/" + sh.name, Run: func() *vlib.Result {
 					r := &vlib.Result{}
 					r.Violate("C19/baseline-fails/"+sh.name, "with a never-cancellable context the shape fails: %v (returned=%v)", base.err, base.returned)
@@ -261,7 +308,7 @@ func C19Plan() *vlib.Plan {
 					return
 				}
 				if !mustFail {
-					if out.err != nil {
+					if out.err != nil && !sh.mayFailHonestly {
 						res.Violate(fmt.Sprintf("C19/spurious-failure/%s/%s", sh.name, label), "shape %s %s: %v", sh.name, label, out.err)
 					}
 					res.Outcome("completed-as-baseline")
